@@ -536,6 +536,16 @@ def _assert_invariant(contract: Contract, instance: Any) -> None:
     else:
         check = contract.condition()
 
+    if inspect.iscoroutine(check):
+        # The invariants are checked synchronously. The coroutine must not be taken for a truthy verdict.
+        check.close()
+        raise ValueError(
+            "Unexpected coroutine resulting from the invariant condition {} for the instance of class {}. "
+            "The invariants can not be awaited.".format(
+                contract.condition, type(instance)
+            )
+        )
+
     if not_check(check=check, contract=contract):
         raise _create_violation_error(
             contract=contract, resolved_kwargs={"self": instance}
